@@ -27,8 +27,8 @@ prop("C20",
      assumptions=["verify (pub s) m (sign s m) = true", "length s = 32 -> length (pub s) = 32",
                   "a random source is modelled as the finite byte string it delivers before failing"])
 
-SRC_DEPS = ["GoSem.v", "GeneratedFn.v", "GenFnProofs.v", "SourceLevelProofs.v"]
-SRC_TRUSTED = "source translator /verif/genfn (go/parser, go/ast; its own type inference; documented subset in notes/GENFN.md): trusted to translate the Go text of datalog/symbol.go and of the operator Eval functions of datalog/expressions.go into the Gallina definitions of coq/GeneratedFn.v over the prelude Model/GoSem.v (fixed-width arithmetic made explicit, index out of range = Panic outcome, math/big = Z, strings/regexp calls = the model's byte-string functions and the rx oracle, error values = error classes); slice capacity and aliasing are not in that translation"
+SRC_DEPS = ["GoSem.v", "GeneratedFn.v", "GenFnProofs.v", "SourceLevelProofs.v", "GenFnSetProofs.v", "SourceLevelSetProofs.v", "GenFnEvalProofs.v", "SourceLevelEvalProofs.v", "SourceLevelEvalClosedProofs.v", "DEval.v", "DEvalProofs.v", "DTerm.v", "Symbols.v", "SymbolsProofs.v"]
+SRC_TRUSTED = "source translator /verif/genfn (go/parser, go/ast; its own type inference; documented subset in notes/GENFN.md): trusted to translate the Go text of datalog/symbol.go, of the operator Eval functions and of the stack machine (*Expression).Evaluate (with stack.Push/Pop and the dispatch over the implementors of Op, UnaryOpFunc, BinaryOpFunc) of datalog/expressions.go into the Gallina definitions of coq/GeneratedFn.v over the prelude Model/GoSem.v (fixed-width arithmetic made explicit, index out of range = Panic outcome, math/big = Z, strings/regexp calls = the model's byte-string functions and the rx oracle, error values = error classes); slice capacity and aliasing are not in that translation"
 prop("C06", source_level=True,
      coq_deps=["Base.v", "Term.v", "Expr.v", "Corr.v", "ExprProofs.v", "TableProofs.v", "Generated.v"] + SRC_DEPS,
      theorems=["C06_total_no_panic", "C06_total", "C06_arith_exact", "C06_never_wrapped", "C06_ill_typed_is_error",
@@ -38,15 +38,24 @@ prop("C06", source_level=True,
                "C06_source_add", "C06_source_sub", "C06_source_mul", "C06_source_div", "C06_source_less_than", "C06_source_less_or_equal",
                "C06_source_greater_than", "C06_source_greater_or_equal", "C06_source_and", "C06_source_or", "C06_source_negate",
                "C06_source_parens", "C06_source_length", "C06_source_prefix", "C06_source_suffix", "C06_source_regex",
-               "C06_source_arith_exact", "C06_source_never_wrapped", "C06_source_arith_no_panic"],
+               "C06_source_arith_exact", "C06_source_never_wrapped", "C06_source_arith_no_panic",
+               "C06_source_evaluate_is_model", "C06_source_evaluate_total", "C06_source_evaluate_malformed_is_error",
+               "C06_source_evaluate_never_wrapped", "C06_source_set_operators_are_model",
+               "C06_source_equal", "C06_source_contains", "C06_source_contains_set", "C06_source_intersection", "C06_source_union",
+               "C06_source_term_equal", "C06_source_set_equal", "C06_source_set_contains", "C06_source_set_intersect", "C06_source_set_union",
+               "C06_source_intersection_spec", "C06_source_union_spec", "C06_source_set_ops_no_repeats", "C06_source_set_ops_no_panic",
+               "C06_source_equal_symmetric", "C06_source_equal_sets_spec", "C06_source_equal_atoms_spec", "C06_source_equal_mismatch",
+               "C06_source_contains_spec", "C06_source_contains_strings", "C06_source_contains_ill_typed"],
      trusted=[SRC_TRUSTED, "Go's regexp is not modelled: Section variable rx (pattern, subject -> option bool); the theorems hold for every rx",
               "the model evaluates resolved (S-level) values: string terms carry their contents; symbol-table interning of "
               "concatenation results is covered by the correspondence (results compared after resolution)",
               "integers are Z, dates N in the model; that operands are 64-bit is a property of their producers (decoder, parser)"],
      assumptions=["every error other than DivZero/Overflow/Regex/UnknownVar is one class (IllTyped) in the model and in the comparison",
                   "source-level theorems (Properties/C06_source_level.v): operands in the ranges of the Go types (wf_dterm: int64, uint64, uint32), "
-                  "OFFSET + len(table) + 1 below 2^63 where the source computes it in int (table_fits); Equal, Contains, Intersection, Union and the "
-                  "stack machine Evaluate are translated (genfn -all) but not yet proved equal to the model: for them the tie is the correspondence; "
+                  "OFFSET + len(table) + 1 below 2^63 where the source computes it in int (table_fits); the stack machine Evaluate is translated and PROVED equal to the index-level model eval_D for every op sequence and all bindings "
+                  "(Properties/C06_source_level_eval.v) under run_pre (the operands met during the run stay in the ranges of the Go types; exact and decidable on concrete inputs) "
+                  "; Equal, Contains, Intersection, Union and the Set / Term Equal methods are proved equal to the model for all operands (Properties/C06_source_level_sets.v; only Contains on two strings needs the ranges), which discharges the premise set_ops_eq of the Evaluate theorems (C06_source_set_operators_are_model); a Set nested in a Set is not represented (the converters refuse it); "
+                  "a map[Variable]*Term holds non-nil pointers; "
                   "the regex oracle is assumed uniform in the subject for compile failures (rx_uniform)"])
 
 AUTHZ_DEPS = ["Base.v", "Term.v", "Expr.v", "Datalog.v", "Authz.v", "Corr.v", "AuthzProofs.v", "Generated.v", "DEval.v", "CorrD.v", "DEvalProofs.v", "DTerm.v", "Symbols.v", "Wire.v", "Token.v", "Chain.v", "SymbolsProofs.v"]
